@@ -104,12 +104,17 @@ class C01(engine.Property):
         "self-loop-created",
         "half-assigned-edge-created",
         "value-equal-vertices-in-play",
+        "handover-override-ran",
     ]
 
     def make_config(self, rng):
         cfg = common.std_struct_config(rng, kinds=KINDS, always=("mk_edge",))
         cfg["p_bad"] = rng.choice([0.0, 0.05])
-        if rng.random() < 0.15:
+        if rng.random() < 0.12:
+            # a vertex subclass whose remove_from_link override calls back into the library
+            cfg["vertex_classes"] = ["Vertex", "HandoverVertex"]
+            cfg["weights"]["mk_vertex"] = max(2, cfg["weights"].get("mk_vertex", 0))
+        elif rng.random() < 0.15:
             # value-equal vertices: few tags, so equal-but-distinct objects abound
             cfg["vertex_classes"] = ["EqVertex"] if rng.random() < 0.5 else ["EqVertex", "Vertex"]
             cfg["value_equal"] = True
@@ -135,6 +140,11 @@ class C01(engine.Property):
 
     def execute(self, st, op):
         common.probe_link_op(st, op)
+        if op["op"] in ("remove_from_link", "unlink_from", "unlink", "set_end") and any(
+            d.get("cls") == "HandoverVertex" for d in st.snap.values()
+        ):
+            st.stats["probe:handover-override-ran"] += 1
+            st.stats["fault:reentrant-call-from-subclass-override"] += 1
         before = st.snap
         out = st.ex.apply(op)
         if out is None:
